@@ -182,6 +182,9 @@ def check_batch(spec, ctx):
             v.detail["replay_spec"] = {"forms": [fs], "mode": "single", "string": False}
             raise
         nontrivial = nontrivial or nt
+        ctx.count("forms_compiled_and_compared")
+        if nt:
+            ctx.count("forms_nontrivial")
     # string front-end for the first form of the batch (separately compiled: costs one more compile)
     if spec.get("string") and prepared:
         fs, built, A, sabs = prepared[0]
